@@ -45,6 +45,13 @@ class EntryMonitor:
                 except Exception:
                     align = False
             s = EM.pre_state(arm, mon.cfg, align, stage2)
+            if kind == 'dabt' and stage2 and mon.report and getattr(mon.b, 'in_step', False):      # (raised by the emulator itself, not injected through the API)
+                # the one thing known about the stage of a fault without modelling the translation: a SECOND-stage abort needs a second stage
+                # (Virtualization Extensions, HCR.VM = 1, Non-secure, not Hyp mode)
+                r_ = arm.registers
+                if not (mon.cfg.get('have_virt_ext') and (r_.hcr.value & 1) and (r_.scr.value & 1) and (r_.cpsr.value & 0x1F) not in (0x16, 0x1a)):
+                    mon.b.violate(mon.oracle, 'dabt', 'second_stage_abort_without_stage2', 'Data Abort flagged as a second-stage abort with HCR.VM=%d SCR.NS=%d mode %#x virt=%s' % (
+                        r_.hcr.value & 1, r_.scr.value & 1, r_.cpsr.value & 0x1F, mon.cfg.get('have_virt_ext')))
             pre = M.light(arm)
             out = real(*a, **k)
             post = M.light(arm)
@@ -57,6 +64,7 @@ class EntryMonitor:
         self.taken.append((b.tick, kind))
         self.last_post = (b.tick, post)          # the state right after the entry routine: nothing else may happen in the same step
         self.last_post_serial = getattr(b, 'step_serial', None) if getattr(b, 'in_step', False) else None
+        self.last_pre = pre                      # the state right before the entry routine (what the faulting instruction had done by then)
         if (s['cpsr'] >> 24) & 1 and not (s['cpsr'] >> 5) & 1:
             # entry from Jazelle state (only reachable in configurations that have the extension): its return-address offsets are
             # not modelled.  ThumbEE state (J=1, T=1) uses the Thumb offsets and is compared
